@@ -205,9 +205,16 @@ func genYModsCase(r *Rng) Case {
 		case "sub-import-missing":
 			// an import written only in a submodule is an import of the module
 			carr(all["mc"], "subs")[0].(mspec)["imports"] = []any{"nowhere"}
+			if r.Chance(50) {
+				// ... under a prefix the module itself uses for another import (prefixes are per file)
+				carr(all["mc"], "subs")[0].(mspec)["pfxAs"] = "ma"
+			}
 		case "sub-import-cycle":
 			// md imports mc, and only mc's submodule imports md
 			carr(all["mc"], "subs")[0].(mspec)["imports"] = []any{"md"}
+			if r.Chance(50) {
+				carr(all["mc"], "subs")[0].(mspec)["pfxAs"] = "ma"
+			}
 			md := mspec{"name": "md"}
 			specs = append(specs, md)
 			c["mods"] = specs
@@ -387,8 +394,12 @@ func renderSub(parent string, s mspec) string {
 	n := cstr(s, "name")
 	var b strings.Builder
 	fmt.Fprintf(&b, "submodule %s { belongs-to %s { prefix %s; }\n", n, parent, parent)
-	for _, i := range carr(s, "imports") {
-		fmt.Fprintf(&b, "  import %s { prefix %s; }\n", i.(string), i.(string))
+	for k, i := range carr(s, "imports") {
+		pfx := i.(string)
+		if p := cstr(s, "pfxAs"); p != "" && k == 0 {
+			pfx = p
+		}
+		fmt.Fprintf(&b, "  import %s { prefix %s; }\n", i.(string), pfx)
 	}
 	for _, i := range carr(s, "includes") {
 		fmt.Fprintf(&b, "  include %s;\n", i.(string))
